@@ -234,6 +234,20 @@ def _fmt(s):
     return "{" + ",".join("t%+d" % o for o in sorted(s)) + "}"
 
 
+LOOP_SHAPES = {
+    True: Shape("self-loop A->A, reciprocal A<->B, B->C + isolated D", ["A", "B", "C", "D"],
+                [("A", "A"), ("A", "B"), ("B", "A"), ("B", "C")], True),
+    False: Shape("self-loop A-A, path A-B-C + isolated D", ["A", "B", "C", "D"], [("A", "A"), ("A", "B"), ("B", "C")], False),
+}
+
+
+def _job_shapes(directed_src):
+    """(shape, the pairs whose presence is varied exhaustively).  The second shape carries a self-loop: a pair that is its own
+    reverse, present in the reciprocal projection exactly when it is present."""
+    first = SHAPES[True][1] if directed_src else SHAPES[False][0]
+    return [(first, [{"A", "B"}]), (LOOP_SHAPES[directed_src], [{"A"}])]
+
+
 def check_conversions_on_graphs(repo: Repo, rep: Report, tier="quick", which=("to_undirected", "to_undirected[reciprocal]", "to_directed")):
     all_methods = {c: repo.class_methods(rel, c) for c, rel in CLASSES.items()}
     ot = OrderType([["t"]], [], 8)
@@ -253,43 +267,43 @@ def check_conversions_on_graphs(repo: Repo, rep: Report, tier="quick", which=("t
         fn = methods[mname]
         construct = repo.construct(rel, cls + "." + mname) + ("[reciprocal]" if recip else "") + "[graph]"
         directed_src = cls == "DynDiGraph"
-        shape = SHAPES[True][1] if directed_src else SHAPES[False][0]
-        keys = sorted(shape.key(*e) for e in shape.edges)
-        # the pairs whose presence is varied exhaustively; the others get two fixed patterns
-        varied = [k for k in keys if set(k) == {"A", "B"}]
-        fixed = [k for k in keys if k not in varied]
-        fixed_patterns = [(True, False, False), (True, True, True)] if tier == "quick" else list(itertools.product((False, True), repeat=3))
-        orders = [list(shape.nodes), list(reversed(shape.nodes))]
-        n_val = 0
-        for vals in itertools.product((False, True), repeat=len(varied) * len(OFFS)):
-            for fp in fixed_patterns:
-                seed = {}
-                it = iter(vals)
-                for k in varied:
-                    for o in OFFS:
-                        seed[("present", k, repr(T(o)))] = next(it)
-                for k in fixed:
-                    for o, p in zip(OFFS, fp):
-                        seed[("present", k, repr(T(o)))] = p
-                n_val += 1
-                for order in (orders if recip else orders[:1]):
-                    def once(ch, order=order):
-                        w = ConvWorld(cls, shape, ch, methods, {}, all_methods, order)
-                        ip = Interp(w, ot, max_depth=10)
-                        env = {"self": SelfV()}
-                        for a in fn.args.args[1:]:
-                            env[a.arg] = (TRUE if recip else FALSE) if a.arg == "reciprocal" else NONE
-                        if fn.args.kwarg:
-                            env[fn.args.kwarg.arg] = DictObj()
-                        try:
-                            return w, ip.call_function(fn, env), None
-                        except AbstractRaise as r:
-                            return w, None, r
-                    for ch, (w, val, r) in run_all_choices(once, max_runs=16, seed=seed):
-                        n_runs += 1
-                        _judge(rep, construct, cls, mname, recip, shape, w, val, r, order)
-        rep.ob("C16.graph", construct, "result presence = specification on %d presence valuations of '%s' (instants t+1..t+3)" % (
-            n_val, shape.name))
+        for shape, varied_sets in _job_shapes(directed_src):
+            keys = sorted(shape.key(*e) for e in shape.edges)
+            # the pairs whose presence is varied exhaustively; the others get two fixed patterns
+            varied = [k for k in keys if set(k) in varied_sets]
+            fixed = [k for k in keys if k not in varied]
+            fixed_patterns = [(True, False, False), (True, True, True)] if tier == "quick" else list(itertools.product((False, True), repeat=3))
+            orders = [list(shape.nodes), list(reversed(shape.nodes))]
+            n_val = 0
+            for vals in itertools.product((False, True), repeat=len(varied) * len(OFFS)):
+                for fp in fixed_patterns:
+                    seed = {}
+                    it = iter(vals)
+                    for k in varied:
+                        for o in OFFS:
+                            seed[("present", k, repr(T(o)))] = next(it)
+                    for k in fixed:
+                        for o, p in zip(OFFS, fp):
+                            seed[("present", k, repr(T(o)))] = p
+                    n_val += 1
+                    for order in (orders if recip else orders[:1]):
+                        def once(ch, order=order):
+                            w = ConvWorld(cls, shape, ch, methods, {}, all_methods, order)
+                            ip = Interp(w, ot, max_depth=10)
+                            env = {"self": SelfV()}
+                            for a in fn.args.args[1:]:
+                                env[a.arg] = (TRUE if recip else FALSE) if a.arg == "reciprocal" else NONE
+                            if fn.args.kwarg:
+                                env[fn.args.kwarg.arg] = DictObj()
+                            try:
+                                return w, ip.call_function(fn, env), None
+                            except AbstractRaise as r:
+                                return w, None, r
+                        for ch, (w, val, r) in run_all_choices(once, max_runs=16, seed=seed):
+                            n_runs += 1
+                            _judge(rep, construct, cls, mname, recip, shape, w, val, r, order)
+            rep.ob("C16.graph", construct, "result presence = specification on %d presence valuations of '%s' (instants t+1..t+3)" % (
+                n_val, shape.name))
     rep.stats["abstract_runs"] = rep.stats.get("abstract_runs", 0) + n_runs
     return n_runs
 
@@ -329,7 +343,7 @@ def _judge(rep, construct, cls, mname, recip, shape, w, val, r, order):
             want[(v, u)] = set(s)
     elif recip:
         for (u, v), s in st.items():
-            if (v, u) in st and u != v:
+            if (v, u) in st:
                 inter = s & st[(v, u)]
                 if inter:
                     want[tuple(sorted((u, v)))] = inter
